@@ -5,6 +5,7 @@
 package interp
 
 import (
+	"unicode/utf8"
 	"sort"
 	"bytes"
 	"fmt"
@@ -1214,7 +1215,7 @@ func rangeIter(fr *frame, x value, t types.Type) iter {
 		it.order(fr)
 		return it
 	case symStr:
-		panic(unsupported{"range over a string with symbolic bytes"})
+		return &symStrIter{fr: fr, s: x}
 	case string:
 		return &stringIter{Reader: strings.NewReader(x)}
 	}
@@ -1685,4 +1686,51 @@ func (it *snapIter) next() tuple {
 		}
 	}
 	return []value{false, nil, nil}
+}
+
+// symStrIter ranges over a string with symbolic bytes. A symbolic byte is decided
+// to be ASCII (then it is the rune) or not; multi-byte sequences that involve a
+// symbolic byte are outside the engine.
+type symStrIter struct {
+	fr *frame
+	s  symStr
+	i  int
+}
+
+func (it *symStrIter) next() tuple {
+	okv := make(tuple, 3)
+	if it.i >= len(it.s.b) {
+		okv[0] = false
+		return okv
+	}
+	okv[0] = true
+	okv[1] = it.i
+	b := it.s.b[it.i]
+	if sb, ok := b.(sym); ok {
+		if !it.fr.i.decide(symBinop(token.LSS, types.Typ[types.Uint8], sb, byte(0x80))) {
+			panic(unsupported{"range over a string: non-ASCII symbolic byte"})
+		}
+		okv[2] = symConv(types.Typ[types.Int32], sb)
+		it.i++
+		return okv
+	}
+	c := b.(byte)
+	if c < 0x80 {
+		okv[2] = rune(c)
+		it.i++
+		return okv
+	}
+	// a concrete lead byte: decode if the continuation bytes are concrete too
+	var buf []byte
+	for k := it.i; k < len(it.s.b) && k < it.i+4; k++ {
+		cb, ok := it.s.b[k].(byte)
+		if !ok {
+			panic(unsupported{"range over a string: multi-byte sequence with a symbolic byte"})
+		}
+		buf = append(buf, cb)
+	}
+	r, n := utf8.DecodeRune(buf)
+	okv[2] = r
+	it.i += n
+	return okv
 }
